@@ -40,7 +40,7 @@ REAL = ['py4hw.simulation.Simulator (topologicalSort, propagateAll, clk)', 'py4h
 STUB = ['stimulus (wire.put between clk calls)']
 ASSUMPTIONS = ['reference models in dsim/catalog.py state the documented function of each block',
                'netlists up to ~150 leaves / chains up to 900 deep (thorough); widths up to 70']
-PROBES = ['observed_from_listener', 'creation_refused_then_retried', 'wires_renamed_before_sort', 'simulator_through_constructor', 'settled_by_clk0', 'gated_top_driver', 'simulator_before_cycle_closed', 'const_update', 'stop_cancel', 'sorter_needed_repair', 'cyclic_refused', 'reg_cycle_accepted', 'late_add', 'antidataflow_block']
+PROBES = ['thousands_of_leaves', 'deep_hierarchy', 'observed_from_listener', 'creation_refused_then_retried', 'wires_renamed_before_sort', 'simulator_through_constructor', 'settled_by_clk0', 'gated_top_driver', 'simulator_before_cycle_closed', 'const_update', 'stop_cancel', 'sorter_needed_repair', 'cyclic_refused', 'reg_cycle_accepted', 'late_add', 'antidataflow_block']
 
 STATEFUL_LEAVES = {'Latch', 'AsynchronousMemory', 'BidirBuf'}
 
@@ -53,17 +53,26 @@ def gen(rs, tier, index):
     comb = comb + kinds_with(tag='perinst')          # one class, structural or behavioural per instance (method bound to the object)
     seqk = [KINDS[k] for k in ('Reg', 'Counter', 'DelayLine', 'TReg')]
     scn = {'mode': 'acyclic'}
-    if mode < 0.12:
+    bulk = rng.random()
+    if bulk < (0.004 if tier == 'quick' else 0.0015):
+        # bulk: thousands of leaves in a shuffled instantiation order
+        nb = rng.choice([1100, 2100, 4200, 5000, 9000, 9000, 17000] if tier == 'quick' else [4200, 9000, 17000, 33000])
+        scn['bulk'] = [nb, rs.sub('bulk')]
+        scn['design'], _ = netlist.bulk_design(*scn['bulk'])
+        mode = 0.5
+    elif mode < 0.12:
         # deep chain built in reverse: the worst case of the swap sorter
-        depth = rng.choice([5, 20, 60, 150]) if tier == 'quick' else rng.choice([20, 100, 300, 600, 900])
+        depth = rng.choice([5, 20, 60, 150, 150, 1100]) if tier == 'quick' else rng.choice([20, 100, 300, 600, 900, 1100, 2100, 4200])
         scn['design'] = chain_design(rng, depth)
-    else:
+    elif not scn.get('bulk'):
         n = rng.choice([3, 5, 8, 12, 20, 30]) if tier == 'quick' else rng.choice([5, 12, 30, 60, 100])
         scn['design'] = netlist.gen_design(rng, n, comb, hier_depth=rng.choice([0, 0, 1, 2, 3]),
                                            feedback=rng.choice([0, 0.1, 0.3]), seq_kinds=seqk,
                                            seq_frac=rng.choice([0, 0.1, 0.25]))
     d = scn['design']
-    if mode >= 0.12 and mode < 0.30:
+    if scn.get('bulk'):
+        pass
+    elif mode >= 0.12 and mode < 0.30:
         scn['mode'] = 'cyclic'
         add_comb_cycle(rng, d)
     if scn['mode'] == 'acyclic' and any(KINDS[n['kind']].seq for n in d['nodes']) and rng.random() < 0.2:
@@ -90,8 +99,15 @@ def gen(rs, tier, index):
     elif r < 0.75:
         order.reverse()
     scn['order'] = order
+    if scn.get('bulk'):
+        # kept compact: design and order are regenerated from (n, seed) when the scenario is executed
+        scn['order'] = None
+        scn['design'] = None
+    if scn['mode'] == 'acyclic' and not scn.get('bulk') and rng.random() < 0.05:
+        scn['deep'] = rng.choice([12, 16, 17, 24, 33, 40])     # one group of the design nested that many blocks deeper
     fr = rs.get('faults')
     scn['late'] = fr.randint(1, max(1, len(order) - 1)) if (fr.random() < 0.25 and len(order) > 1) else None
+    scn['dseed'] = rs.sub('deep')
     scn['perm'] = rs.sub('perm') if fr.random() < 0.4 else None
     # wires of the connected netlist are renamed / moved through the public Wire API before the simulator is asked for
     scn['rename'] = rs.sub('rename') if fr.random() < 0.2 else None
@@ -199,9 +215,24 @@ def check_all(b, sim, ref, step, where, st):
     seams.check_prepared_empty(where, step)
 
 
+def materialise(scn):
+    if scn.get('bulk'):
+        return netlist.bulk_design(*scn['bulk'])
+    d, order = scn['design'], scn['order']
+    if scn.get('deep'):
+        import copy
+        d = copy.deepcopy(d)
+        netlist.deepen(d, random.Random(scn.get('dseed', 0)), scn['deep'])
+    return d, order
+
+
 def run(scn, log, st):
-    d = scn['design']
-    order = scn['order']
+    d, order = materialise(scn)
+    if scn.get('bulk'):
+        st.probe('thousands_of_leaves')
+        st.probe('leaves_ge_%d' % (4096 if scn['bulk'][0] >= 4096 else 1024))
+    if scn.get('deep'):
+        st.probe('deep_hierarchy')
     log.add('design', h64(repr(sorted((n['id'], n['kind'], tuple(n['ins'])) for n in d['nodes']))), 'order', h64(order))
     b = netlist.Built(d)
     st.sched(tuple(order), scn.get('perm'), scn.get('late'))      # distinct instantiation schedules
@@ -375,6 +406,17 @@ def shrink(scn):
         c = dict(scn)
         c['steps'] = [dict(s, faults=[]) for s in scn['steps']]
         yield c
+    if scn.get('bulk'):
+        nb, sd = scn['bulk']
+        for m in (nb // 2, nb * 3 // 4, nb - 100, nb - 1):
+            if 2 <= m < nb:
+                yield dict(scn, bulk=[m, sd], late=(min(scn['late'], m - 1) if scn.get('late') is not None else None))
+        return
+    if scn.get('deep'):
+        yield dict(scn, deep=None)
+        if scn['deep'] > 1:
+            yield dict(scn, deep=scn['deep'] // 2)
+            yield dict(scn, deep=scn['deep'] - 1)
     d = scn['design']
     ids = [n['id'] for n in d['nodes']]
     if len(ids) > 1:
@@ -396,11 +438,12 @@ def shrink(scn):
                     c['late'] = min(c['late'], max(1, len(c['order']) - 1))
                 yield c
             chunk //= 2
-    canon = sorted(scn['order'])
-    if scn['order'] != canon:
-        c = dict(scn)
-        c['order'] = canon
-        yield c
+    if scn['order'] is not None:
+        canon = sorted(scn['order'])
+        if scn['order'] != canon:
+            c = dict(scn)
+            c['order'] = canon
+            yield c
     if any(any(s['vec']) for s in scn['steps']):
         c = dict(scn)
         c['steps'] = [dict(s, vec=[0] * len(s['vec'])) for s in scn['steps']]
